@@ -12,7 +12,7 @@ import (
 
 var c04Profile = &kvh.GenProfile{
 	Weights: map[string]int{
-		"batch": 46, "put": 28, "del": 8, "sync": 3, "merge": 4, "reopen": 7, "get": 1,
+		"batch": 46, "put": 28, "del": 8, "sync": 3, "merge": 4, "wipe": 2, "reopen": 7, "get": 1,
 	},
 	MaxBatchOps: 12,
 	Big:         true,
